@@ -64,9 +64,23 @@ class Acc:
             self.outcomes.add(o if isinstance(o, str) else repr(o))
 
     def violation(self, case, msg):
+        """violations matching an open known finding are counted and only a few of them kept, so that they can never
+        crowd a new violation out of the (bounded) list"""
         self.counts['_violations_raw'] += 1
-        if len(self.violations) < 400:
-            self.violations.append((jsonable(case), str(msg)))
+        case = jsonable(case)
+        from mc import findings
+        try:
+            kid = findings.match_open(case)
+        except Exception:
+            kid = None
+        if kid:
+            self.counts['_known:' + kid] += 1
+            if self.counts['_known:' + kid] <= 3:
+                self.violations.append((case, str(msg)))
+            return
+        self.counts['_new_kept'] += 1
+        if self.counts['_new_kept'] <= 400:
+            self.violations.append((case, str(msg)))
 
     def result(self):
         return dict(counts=dict(self.counts), samples=self.samples,
@@ -132,7 +146,7 @@ class Ctx(Acc):
             if len(self.samples) < MAX_SAMPLES:
                 self.samples.append(s)
         for v in res['violations']:
-            if len(self.violations) < 4000:
+            if len(self.violations) < 20000:
                 self.violations.append(tuple(v))
         for o in res['outcomes']:
             if len(self.outcomes) < 20000:
@@ -187,8 +201,11 @@ class Ctx(Acc):
         from mc import findings
         wall = time.time() - self.t0
         known, new = findings.classify(self.pid, self.violations)
-        for entry, cases in known.items():
-            print(f'KNOWN-FINDING: property={self.pid} {entry} ({len(cases)} case(s) this run)')
+        known_tot = {entry: max(len(cases), int(self.counts.get('_known:' + entry.split(':', 1)[0], 0))) for entry, cases in known.items()}
+        for entry, n_cases in known_tot.items():
+            print(f'KNOWN-FINDING: property={self.pid} {entry} ({n_cases} case(s) this run)')
+        for k in [k for k in self.counts if k.startswith('_known:') or k == '_new_kept']:
+            self.counts.pop(k)
         seen = set()
         alt = os.environ.get('VERIF_EVIDENCE_DIR')
         rdir = os.path.join(alt, 'replays', self.pid) if alt else os.path.join(VERIF, 'replays', self.pid)
@@ -232,7 +249,7 @@ class Ctx(Acc):
             exhaustive=bool(self.extra.get('exhaustive', True)) and not self.harness_errors,
             distinct_outcomes=len(self.outcomes),
             counts={k: v for k, v in sorted(counts.items())},
-            known_findings_seen={k: len(v) for k, v in known.items()},
+            known_findings_seen=dict(known_tot),
             violations_raw=raw,
         )
         cov.update({k: jsonable(v) for k, v in self.extra.items() if k != 'exhaustive'})
@@ -252,7 +269,7 @@ class Ctx(Acc):
         ok_schema = validate_evidence(path)
         print(f'{self.pid} tier={self.tier} seed={self.seed} wall={wall:.1f}s evaluations={cov["evaluations"]} '
               f'states={cov["states"]} transitions={cov["transitions"]} nontrivial={cov["distinct_nontrivial"]} '
-              f'outcomes={cov["distinct_outcomes"]} new_violations={n_new} known={sum(len(v) for v in known.values())}')
+              f'outcomes={cov["distinct_outcomes"]} new_violations={n_new} known={sum(known_tot.values())}')
         if self.harness_errors:
             print(f'{self.pid}: {len(self.harness_errors)} harness error(s)/timeouts; the run is NOT complete', file=sys.stderr)
             return 2
